@@ -75,7 +75,7 @@ def main(chk):
         if not cov.get(need):
             chk.machinery("vacuous: no edge of class %s" % need)
     c02.report_mismatches(chk, mism, "execution under a schema map diverges from StmtCache.tla / the translated construct / the cache-less engine: ")
-    w = max(walks, key=lambda w_: sum(1 for ei in w_ if G.edges[ei][1]["m"] != "none"))
+    w = max(walks, key=c02.interesting(G))
     sample = [dict(group=runs[G.states[G.edges[w[0]][0]]["g"]]["group"],
                    walk=["%s V%d map=%s -> %s/%s" % (G.edges[ei][1]["sh"], G.edges[ei][1]["p"], G.edges[ei][1]["m"], G.edges[ei][1]["out"],
                                                      G.edges[ei][1]["hit"]) for ei in w])]
